@@ -1,5 +1,6 @@
 """C17 - array helpers, interval view and block averaging keep their contracts."""
 import math
+from fractions import Fraction
 
 import numpy as np
 from hypothesis import strategies as st
@@ -63,10 +64,36 @@ def _nval(lo=1, hi=16):
     return st.sampled_from([v for v in _NS if lo <= v <= hi] or [lo])
 
 
+_SMALL = [0.1, 0.2, 0.3, 0.7, 1.1, 1.3, -0.1, -0.7, 0.0]          # non-dyadic O(0.1) values (and an exact zero)
+_BIG = [1e12, 1e12 + 0.5, 3e12, -1e12, 1.0000001e12, 7.3e11]
+
+
 @st.composite
-def _values(draw, m, increasing=False):
+def _mixed(draw, m, block=None):
+    """values whose magnitude changes by ~13 decades between blocks of `block` elements (whole rows of O(0.1) values
+    next to rows holding 1e12-scale peaks); block=None: run lengths drawn at random"""
+    out = []
+    while len(out) < m:
+        b = block if block is not None else draw(st.sampled_from([1, 1, 2, 3, 5, 8]))
+        cls = draw(st.sampled_from(["big", "small", "small", "both"]))
+        for _ in range(b):
+            if cls == "both":
+                pool = draw(st.sampled_from([_BIG, _SMALL]))
+            else:
+                pool = _BIG if cls == "big" else _SMALL
+            v = draw(st.sampled_from(pool))
+            if v != 0.0 and draw(st.booleans()):
+                v = v * (1 + draw(st.integers(1, 1000)) / 1024.0 / 16)
+            out.append(float(v))
+    return out[:m]
+
+
+@st.composite
+def _values(draw, m, increasing=False, block=None):
     """dict(a=list, kind, int): m numbers; ints are Python ints (-> int64 array), floats Python floats."""
-    src = draw(st.sampled_from(["int", "x", "y", "y"] if not increasing else ["int", "x", "x", "x"]))
+    src = draw(st.sampled_from(["int", "x", "y", "y", "mixed", "mixed"] if not increasing else ["int", "x", "x", "x"]))
+    if src == "mixed":
+        return dict(a=draw(_mixed(m, block)), kind="mixed-magnitude", int=False)
     if src == "int":
         if increasing:
             x0 = draw(st.integers(-50, 50))
@@ -76,12 +103,22 @@ def _values(draw, m, increasing=False):
             for v in g:
                 a.append(a[-1] + v)
             return dict(a=a, kind="int-increasing", int=True)
-        return dict(a=draw(st.lists(st.integers(-40, 40), min_size=m, max_size=m)), kind="int-any", int=True)
+        a = draw(st.lists(st.integers(-40, 40), min_size=m, max_size=m))
+        return dict(a=_with_zeros(draw, a, 0), kind="int-any", int=True)
     if src == "x":
         d = draw(xs(m))
         return dict(a=d["x"], kind="x:" + d["kind"], int=bool(d["int"]))
     d = draw(ys(m))
-    return dict(a=d["y"], kind="y:" + d["kind"], int=False)
+    return dict(a=_with_zeros(draw, d["y"], draw(st.sampled_from([0.0, 0.0, -0.0]))), kind="y:" + d["kind"], int=False)
+
+
+def _with_zeros(draw, a, zero):
+    """in one case out of three put exact zeros at one to three random positions (falsy values inside the data)"""
+    a = list(a)
+    if draw(st.sampled_from([True, False, False])):
+        for _ in range(draw(st.sampled_from([1, 2, 3]))):
+            a[draw(st.sampled_from(range(len(a))))] = zero
+    return a
 
 
 @st.composite
@@ -152,17 +189,31 @@ def _eq(g, w):
     return g == w
 
 
+def _num(w):
+    return float(w) if isinstance(w, Fraction) else w
+
+
+def _ulp_tol(k, scale):
+    """2 * k ulp(scale): twice the a-priori bound k * 2**-53 * scale (< k * ulp(scale)) on the error of summing k
+    floats of magnitude <= scale/k in any order (plus one division); 0 when the scale is 0 (result must be exact)"""
+    return 2 * k * math.ulp(scale) if scale > 0 else 0.0
+
+
 def _compare(name, got, want):
     """want: list of (value, tol) - tol None means exact"""
     for k, (g, (w, tol)) in enumerate(zip(got, want)):
         if tol is None:
             ok = _eq(g, w)
+        elif not isinstance(g, (int, float)) or not math.isfinite(g):
+            ok = False
+        elif isinstance(w, Fraction):
+            ok = abs(Fraction(g) - w) <= Fraction(tol)          # exact rational oracle: no rounding on our side
         else:
-            ok = isinstance(g, (int, float)) and not math.isnan(g) and abs(g - w) <= tol
+            ok = abs(g - w) <= tol
         if not ok:
-            raise Violation(f"{name}: element {k} is {g!r}, expected {w!r}" + (" exactly" if tol is None
-                                                                              else f" (tol {tol:.3g})"),
-                            detail=dict(got=_clip(got), want=_clip([w_ for w_, _ in want])))
+            raise Violation(f"{name}: element {k} is {g!r}, expected {_num(w)!r}" + (" exactly" if tol is None
+                                                                                    else f" (tol {tol:.3g})"),
+                            detail=dict(got=_clip(got), want=_clip([_num(w_) for w_, _ in want])))
 
 
 # ---- closed forms (no traffic_weaver code) ---------------------------------------------------------------------
@@ -238,10 +289,16 @@ def o_closed_rows(a, n, drop_last):
 
 
 def o_row_means(y, n):
+    """exact row means; the tolerance of a row depends on that row's own magnitude only: k values of magnitude <= M
+    summed in floating point in any order and divided by k are within k * 2**-53 * M of the exact mean.  A row that
+    holds a single value must return it unchanged."""
     out = []
     for r in range(-(-len(y) // n)):
-        row = [float(v) for v in y[r * n:(r + 1) * n]]
-        out.append((math.fsum(row) / len(row), RTOL * max(abs(v) for v in row)))
+        row = [Fraction(v) for v in y[r * n:(r + 1) * n]]
+        if len(row) == 1:
+            out.append((float(row[0]), None))
+        else:
+            out.append((sum(row) / len(row), _ulp_tol(len(row), float(max(abs(v) for v in row)))))
     return out
 
 
@@ -282,10 +339,12 @@ def oversample_piecewise_body(ctx, case):
 
 @st.composite
 def _end_value(draw, anchor, is_int):
-    """explicit end value below, at or above `anchor`"""
-    kind = draw(st.sampled_from(["below", "below", "above", "above", "at"]))
+    """explicit end value below, at or above `anchor`, or exactly zero (a falsy but perfectly valid end value)"""
+    kind = draw(st.sampled_from(["below", "below", "above", "above", "at", "zero", "zero"]))
     if kind == "at":
         return kind, anchor
+    if kind == "zero":
+        return kind, draw(st.sampled_from([0, 0.0, -0.0]))
     if is_int and draw(st.booleans()):
         d = draw(st.integers(1, 40))
     else:
